@@ -47,7 +47,7 @@ PROP = dict(
                  "a cancel flag, a join on the loop/ticker threads, a presence bit, a one-shot signal, a spawned thread)",
                  "the wake-up guarantee of C03: a polling loop with a queued task eventually runs it (a loop with a non-empty queue is enabled)",
                  "sync/atomic is sequentially consistent: an interleaving of the modelled synchronisation operations is the unit of concurrency",
-                 "kernel failures of epoll_create1/eventfd/epoll_ctl during start, of accept (other than the fatal-error exit) and of the "
+                 "kernel failures of epoll_create1/eventfd/epoll_ctl during start are not part of THIS model (the start sequence with those failures is Model/Start.v, checked under C07); failures of accept (other than the fatal-error exit) and of the "
                  "worker pool's Submit are not modelled",
                  "user callbacks terminate; the scheduler is weakly fair (needed to turn 'no stuck state + decreasing measure' into termination)"],
 )
